@@ -31,7 +31,12 @@ RULE = ("all-shapes sweep (see exhaustive_subspace), then geometries: shapes H,W
         "point (values, mask content, pixel scales, origin) is checked against the generated class-layer model and the specification; where the util function / a second entry "
         "point returned exactly the same thing it is judged once. Arguments equal to the documented default (origin (0,0), centre (0,0), invert False) are NOT passed, so the "
         "defaults themselves are exercised (12% of the geometries have origin (0,0)). Sibling mask cases (same shape and scales / other centre, same centre / other scales) follow "
-        "every circular case in the same process. Non-trivial = non-square shape or "
+        "every circular case in the same process. INPUT KINDS (op kinds / kinds1, 30% of the mask-constructor cases): the same values as tuples / lists / float64 ndarrays / "
+        "numpy scalars / Python ints / int64 arrays / float32 (exact stream) for shape, pixel scales, origin, centre, radii and query coordinates; integer-typed / float32 / list query grids; "
+        "masks as lists, 0-1 integer / uint8 / float arrays; integer coordinates in geometries with non-integral origin; fully masked masks, single unmasked pixels, 1 x 1 shapes; every mutable "
+        "argument fingerprinted after every call and re-used for the next call; every scalar query also through a directly constructed Geometry2D / Geometry1D; sibling entry points "
+        "Grid2DIrregular.from_pixels_and_mask, grid_2d_via_mask_from / grid_2d_via_shape_native_from, Grid1D.uniform_from_zero; history step regrid (the query Grid2D overwritten in place and "
+        "queried again). RARE constructor states: negative radius, inner = outer on a tie radius, inner > outer, unsorted anti-annular radii, axis ratios > 1 and < 0. Non-trivial = non-square shape or "
         "unequal scales or non-zero origin/centre or a history; distinct = distinct JSON input.")
 EXHAUSTIVE = {
     "quick": "every shape H x W with H, W <= 6 and every pixel of it: pixel-centre grid, centre -> (row, column) -> flat index "
